@@ -156,6 +156,11 @@ def oriented_bounds(obj, angle_digits=1, ordered=True, normal=None, coplanar_tol
         points_mean = np.mean(points, axis=0)
         points_demeaned = points - points_mean
         _, _, vh = np.linalg.svd(points_demeaned, full_matrices=False)
+        if np.linalg.det(vh) < 0.0:
+            # the singular vectors are only an orthonormal basis: flip the
+            # plane normal so the returned transform is a rotation rather
+            # than a reflection which would turn meshes inside out
+            vh[2] *= -1.0
         points_2d = np.matmul(points_demeaned, vh.T)
         if np.any(np.abs(points_2d[:, 2]) > coplanar_tol):
             raise ValueError("Points must be coplanar")
@@ -251,6 +256,11 @@ def oriented_bounds(obj, angle_digits=1, ordered=True, normal=None, coplanar_tol
         # adjacent faces where *exactly one* out of two of the faces
         # is visible (xor) and then using the index to get the edge
         edges = hull_edge[np.bitwise_xor(*side[hull_adj])]
+        # the hull of coplanar points is flat: seen along a direction in
+        # its plane (from the zero normal of a degenerate face) every face
+        # is edge-on and there is no outline to project
+        if len(edges) == 0:
+            continue
 
         # project the 3D convex hull vertices onto the plane
         projected = np.dot(to_2D[:3, :3], vertices.T).T[:, :3]
@@ -282,6 +292,11 @@ def oriented_bounds(obj, angle_digits=1, ordered=True, normal=None, coplanar_tol
         if volume < min_volume:
             min_volume = volume
             min_2D = to_2D
+
+    if min_2D is None:
+        # none of the candidate directions had an outline so the
+        # hull has no volume: the points occupy a 2D subspace
+        return oriented_bounds_coplanar(vertices)
 
     # we know the minimum volume transform which should be the expensive
     # part so now we need to do the bookkeeping to find the box
